@@ -147,6 +147,10 @@ class Server:
             return httpx.Response(202)
         mode["_used"] = True
         resp = {"jsonrpc": "2.0", "id": rid, "result": {"echo": body.get("method"), "text": TEXT, "server": self.base}}
+        rk = mode.get("result_kind")
+        if rk:
+            # a result that is not an object: still a response
+            resp["result"] = {"list": [TEXT, None, 1], "str": TEXT, "zero": 0, "empty_list": []}[rk]
         d = mode.get("delay", 0.1)
         m = mode["mode"]
         if m.endswith("_error"):
@@ -219,6 +223,10 @@ def gen_cases(ctx):
                 if mode not in ("202_then_event", "event_then_202", "202_then_event_error", "event_then_202_error") and d != 0.1:
                     continue
                 yield {"est": {"kind": "path"}, "requests": [{"id": rid, "mode": mode, "delay": d}], "exit": "normal"}
+    for rk in ("list", "str", "zero", "empty_list"):
+        for mode in ("200_body", "202_then_event", "event_then_202"):
+            yield {"est": {"kind": "path"}, "requests": [{"id": 5, "mode": mode, "delay": 0.1, "result_kind": rk},
+                                                         {"id": "after", "mode": "202_then_event", "delay": 0.1}], "exit": "normal"}
     # --- a second SSE connection (other server, same ids) alive in the same process ------
     for mode in REQUEST_MODES:
         yield {"est": {"kind": "path"}, "requests": [{"id": 7, "mode": mode, "delay": 0.1}], "exit": "normal", "twin": True}
